@@ -318,18 +318,18 @@ def setrec(dec, indef, ha, a, hb, bn, b0, dup, extra, swap):
 
 V = I(-2, 12)
 OBLIGATIONS = [
-    Obl("derived", derived, {"dec": I(0, 2), "v": I(-1, 21), "k": I(0, 5), "indef": B}, shards=[{"dec": C(d_)} for d_ in range(3)], budget=120,
+    Obl("derived", derived, {"dec": I(0, 2), "v": I(-1, 21), "k": I(0, 5), "indef": B}, thorough={"v": I(-2 ** 33, 2 ** 33)}, shards=[{"dec": C(d_)} for d_ in range(3)], budget=120,
         doc="INTEGER (0 | 10..20) narrowed by (10..20); SEQUENCE (SIZE (1..2 | 4)) OF narrowed by SIZE (1..2): accepted => inside the narrowed set"),
-    Obl("choice_slot", choice_slot, {"dec": I(0, 2), "shape": I(0, 2), "hx": B, "alt": I(0, 1), "v": I(0, 3), "indef": B}, shards=[{"dec": C(d_), "shape": C(s_)} for d_ in range(3) for s_ in range(3)],
+    Obl("choice_slot", choice_slot, {"dec": I(0, 2), "shape": I(0, 2), "hx": B, "alt": I(0, 1), "v": I(0, 3), "indef": B}, thorough={"v": I(-2 ** 33, 2 ** 33)}, shards=[{"dec": C(d_), "shape": C(s_)} for d_ in range(3) for s_ in range(3)],
         budget=90, doc="untagged CHOICE members located by tag keep their declared type in the decoded value"),
-    Obl("presence", presence, {"dec": I(0, 2), "is_set": B, "indef": B, "a": I(-1, 11), "hb": B, "hc": B, "c": B, "nested": B},
+    Obl("presence", presence, {"dec": I(0, 2), "is_set": B, "indef": B, "a": I(-1, 11), "hb": B, "hc": B, "c": B, "nested": B}, thorough={"a": I(-2 ** 33, 2 ** 33)},
         shards=[{"dec": C(d_), "is_set": C(s_)} for d_ in range(3) for s_ in (False, True)], budget=120,
         doc="SEQUENCE/SET with WITH COMPONENTS (b PRESENT, c ABSENT), top level and nested, definite/indefinite: accepted => the presence constraints hold"),
-    Obl("bits_twice", bits_twice, {"dec": I(0, 2), "n1": I(0, 6), "n2": I(0, 6), "v": I(0, 3), "nested": B}, shards=[{"dec": C(d_)} for d_ in range(3)], budget=120,
+    Obl("bits_twice", bits_twice, {"dec": I(0, 2), "n1": I(0, 6), "n2": I(0, 6), "v": I(0, 3), "nested": B}, thorough={"n1": I(0, 10), "n2": I(0, 10), "v": I(0, 15)}, shards=[{"dec": C(d_)} for d_ in range(3)], budget=120,
         doc="BIT STRING SIZE (2..4): two encodings with the same number and different lengths decoded in a row under one type object"),
-    Obl("scalar_excl", scalar_excl, {"dec": I(0, 2), "v": I(-3, 23), "nested": B}, budget=90,
+    Obl("scalar_excl", scalar_excl, {"dec": I(0, 2), "v": I(-3, 23), "nested": B}, thorough={"v": I(-2 ** 33, 2 ** 33)}, budget=90,
         doc="INTEGER (0..20) EXCEPT (3..5 | 11..13 | 18) and a union constraint, at top level and as SEQUENCE members: accepted => inside the set-theoretic denotation"),
-    Obl("scalar_int", scalar_int, {"dec": I(0, 2), "v": I(-300, 300)}, budget=60),
+    Obl("scalar_int", scalar_int, {"dec": I(0, 2), "v": I(-300, 300)}, thorough={"v": I(-2 ** 65, 2 ** 65)}, budget=60),
     Obl("scalar_octs", scalar_octs, {"dec": I(0, 2), "n": I(0, 3), "o0": BYTE, "o1": BYTE, "o2": BYTE}, budget=60),
     Obl("listof", listof, {"dec": I(0, 2), "setof": B, "indef": B, "k": I(0, 3), "v0": V, "v1": V, "v2": V},
         shards=[{"dec": C(d), "setof": C(s)} for d in range(3) for s in (False, True)], budget=120),
